@@ -282,8 +282,10 @@ def main(argv):
             if not isinstance(mo, list):
                 continue
             # the model of the emitted parser (Pdlv.Cxx): struct Parse / view Parse + getters, types without parent
+            # (child packets: the chain of views down to the child, Pdlv.Cxx.viewBody; child structs are not modelled)
             mcs = None
-            if not decl.get("parent_id"):
+            is_child = bool(decl.get("parent_id"))
+            if not is_child or not is_struct:
                 mcs = be.model(i, T, [{"k": ("cxxdec" if is_struct else "cxxview"), "hex": s.hex()} for _, s in uniq])
                 if not isinstance(mcs, list):
                     mcs = None
@@ -293,9 +295,14 @@ def main(argv):
             in_class = False
             if mcs is not None:
                 hyp = be.model(i, T, [{"k": "len", "v": {}}])
-                key = "cxxwf" if is_struct else "cxxvwf"
-                in_class = bool(isinstance(hyp, list) and hyp[0].get(key) and hyp[0].get("decwf"))
-                run.hist("theorem_hypotheses", "%s&decWfBody:%s" % ("Cxx.wfBody" if is_struct else "Cxx.vwfBody", in_class))
+                if is_child:
+                    # child_view_accepts_what_the_reference_accepts / child_view_is_reference_or_constraint
+                    in_class = bool(isinstance(hyp, list) and hyp[0].get("cxxvchain"))
+                    run.hist("theorem_hypotheses", "Cxx.vwfChain:%s" % in_class)
+                else:
+                    key = "cxxwf" if is_struct else "cxxvwf"
+                    in_class = bool(isinstance(hyp, list) and hyp[0].get(key) and hyp[0].get("decwf"))
+                    run.hist("theorem_hypotheses", "%s&decWfBody:%s" % ("Cxx.wfBody" if is_struct else "Cxx.vwfBody", in_class))
             for n_s, ((kind, s), m) in enumerate(zip(uniq, mo)):
                 r = be.ask(i, T, "dec", s.hex())
                 if mcs is not None:
@@ -303,10 +310,20 @@ def main(argv):
                 if in_class:
                     mc = mcs[n_s]
                     run.count("theorem_instances")
-                    same = (mc.get("r") == "ok") == (m.get("r") == "ok") and mc.get("r") != "panic" and \
-                        (mc.get("r") != "ok" or (W.canon(mc.get("value")) == W.canon(m.get("value")) and mc.get("rest") == m.get("rest")))
+                    if is_child:
+                        # everything the reference accepts is a valid chain of views with the same values; a valid chain is
+                        # that, or an input the reference rejects with ConstraintValue
+                        if m.get("r") == "ok":
+                            same = mc.get("r") == "ok" and W.canon(mc.get("value")) == W.canon(m.get("value"))
+                        elif mc.get("r") == "ok":
+                            same = m.get("r") == "err" and m.get("e") == "ConstraintValueError"
+                        else:
+                            same = True
+                    else:
+                        same = (mc.get("r") == "ok") == (m.get("r") == "ok") and mc.get("r") != "panic" and \
+                            (mc.get("r") != "ok" or (W.canon(mc.get("value")) == W.canon(m.get("value")) and mc.get("rest") == m.get("rest")))
                     if not same:
-                        thm = "struct_parser_agrees_with_reference" if is_struct else "view_agrees_with_reference"
+                        thm = "struct_parser_agrees_with_reference" if is_struct else ("child_view_is_reference_or_constraint" if is_child else "view_agrees_with_reference")
                         run.violation("corr", "theorem %s contradicted by evaluation on %s %s (model bug)" % (thm, T, s.hex()[:40]),
                                       {"pdl": d["text"], "type": T, "input_hex": s.hex(), "model_of_emitted_code": mc, "reference": m,
                                        "corr": "thm:" + thm}, found_input=False)
